@@ -109,6 +109,21 @@ Definition reaches (defs : list (bytes * tree)) (from target : bytes) : bool :=
 Definition finding_D8 (ops : list op) (failed : list bytes) (target : bytes) : bool :=
   existsb (fun f => reaches (defs_of ops) target f) failed.
 
+(* finding D40: names n such that the history calls t.New(n) on a handle (which replaces an
+   existing template n by a fresh one without a Tree) and clones afterwards: text/template's
+   Clone registers its receiver under its own name even when its Tree is nil, so in the clone a
+   template that reaches n dereferences the nil Tree -- no call need have failed before *)
+Definition is_clone (o : op) : bool := match o with OClone _ => true | _ => false end.
+Fixpoint replaced_then_cloned (ops : list op) : list bytes :=
+  match ops with
+  | [] => []
+  | OSubNew _ n :: rest => (if existsb is_clone rest then [n] else []) ++ replaced_then_cloned rest
+  | _ :: rest => replaced_then_cloned rest
+  end.
+(* k = index of the panicking op, target = the template it executes *)
+Definition finding_D40 (ops : list op) (k : nat) (target : bytes) : bool :=
+  existsb (fun n => reaches (defs_of ops) target n) (replaced_then_cloned (firstn k ops)).
+
 (* no template reachable from an exec op has failed before: the negation of finding_D8 *)
 Definition no_failed_callee (ops : list op) (failed : list bytes) (target : bytes) : Prop :=
   finding_D8 ops failed target = false.
